@@ -106,12 +106,7 @@ class Facts:
     def _run_wirex(self):
         feats = CONFIGS[self.config][1]
         for crate, root in CRATES.items():
-            f = feats if crate == "insim" else ""
-            if self.config != "default" and crate != "insim":
-                if self.config == "all":
-                    f = "serde"
-                else:
-                    continue
+            f = feats if crate == "insim" else ("serde" if self.config == "all" and crate == "insim_core" else "")
             r = subprocess.run([WIREX, os.path.join(REPO, root), crate, f], stdout=subprocess.PIPE, stderr=subprocess.PIPE, text=True)
             if r.returncode != 0 or not r.stdout.strip():
                 raise SystemExit("FATAL: wirex failed on %s: %s" % (crate, r.stderr[-2000:]))
@@ -142,7 +137,7 @@ class Facts:
         if r.returncode != 0:
             sys.stdout.write(r.stdout[-6000:])
             raise SystemExit("FATAL: cargo check under mirx failed (the tree does not build); no verdict")
-        want = list(CRATES) if self.config == "default" else ["insim"]
+        want = list(CRATES) if self.config in ("default", "all") else ["insim", "insim_core"]
         for c in want:
             p = os.path.join(self.dir, c + ".mir.json")
             if not os.path.exists(p) or os.path.getmtime(p) < start - 1:
@@ -219,13 +214,13 @@ def finish(rep, facts, seed=0):
     for i in rep.instances:
         if i["ok"]:
             continue
-        if i["key"] in kf:
+        if i["key"].split("@")[0] in kf:
             matched.append(i)
         else:
             viol.append(i)
     for i in matched:
-        print("KNOWN-FINDING: property=%s %s — %s" % (rep.prop, i["key"], kf[i["key"]].get("what", i["detail"])))
-    stale = [k for k in kf if k not in {i["key"] for i in matched}]
+        print("KNOWN-FINDING: property=%s %s — %s" % (rep.prop, i["key"], kf[i["key"].split("@")[0]].get("what", i["detail"])))
+    stale = [k for k in kf if k not in {i["key"].split("@")[0] for i in matched}]
     for k in stale:
         print("note: known finding %s no longer reproduced (fixed or anchor moved)" % k)
     rules = {}
@@ -256,6 +251,8 @@ def finish(rep, facts, seed=0):
             "config": facts.config if facts else None,
             "extraction_s": round(facts.extract_s, 2) if facts else None,
             "notes": rep.notes,
+            "configs": getattr(rep, "configs", None),
+            "rule_sensitivity": getattr(rep, "extra", {}).get("rule_sensitivity"),
             "exhaustive": False,
         },
         "assumptions": rep.assumptions,
